@@ -1,4 +1,4 @@
-\* C07 thorough: 3 substores x 2 keys
+\* C07 thorough: 3 substores x 2 keys, all 6 commit orders
 CONSTANTS
   Stores = {"s1", "s2", "s3"}
   NK = 2  NV = 1  NTK = 1  MaxVer = 2  MaxWrites = 2  MaxViews = 1
